@@ -9,10 +9,34 @@ def setup(ctx):
     hooks.RATE = 3
 
 
+QUEUED = ["# c1", "L\tA\t+\tB\t-\t*", "P\tp\tA+,B-\t*", "C\tA\t+\tB\t+\t0\t*", "X\tcustom\trecord", "H\taa:i:1",
+          "#c2", "H\tbb:Z:x"]
+BAD_DECIDERS = ["H\tVN:Z:3.0", "E\t*\tgarbage", "S\tA", "S\tA\tB\tC\tD", "E\t*\tA+\tB-\t5\t1\t0\t1\t*", "G\t*\tA+\tB\t1\t*",
+                "F\tA\tr\t0\t1\t0\t1\t*", "O\t*\t", "U\tu", "S\tA\t*\tLN:Z:x", "S\tA\t1x\t*", "H\tVN:Z:", "H\tVN:i:1",
+                "E\t*\tA+\tB-\t$\t1\t0\t1\t*", "S\tA\t*\txx:i:1\txx:i:2"]
+GOOD1 = ["S\tA\t*", "S\tB\tACGT", "H\tVN:Z:1.0"]
+GOOD2 = ["S\tA\t10\t*", "S\tB\t4\tACGT", "H\tVN:Z:2.0", "E\te\tA+\tB-\t0\t1\t0\t1\t*"]
+
+
 def cases(rng, tier, shard, nshards):
     while True:
+        if rng.random() < 0.25:
+            seq = []
+            for _ in range(rng.randint(2, 8)):
+                r = rng.random()
+                if r < 0.4:
+                    seq.append(rng.choice(BAD_DECIDERS))
+                elif r < 0.75:
+                    seq.append(rng.choice(QUEUED))
+                else:
+                    seq.append(rng.choice(GOOD1 + GOOD2))
+            seq = list(dict.fromkeys(seq))
+            yield {"k": "unknown-version", "lines": seq, "vlevel": rng.choice([1, 1, 2, 3])}
+            continue
         c = H.gen_history(rng, nsteps=rng.randint(4, 16 if tier == "quick" else 40), failing=0.55,
                           fanout=rng.random() < 0.5, tags=rng.random() < 0.3)
+        if rng.random() < 0.25:
+            c["vlevel"] = 0
         if rng.random() < 0.4:
             # give the header single-definition tags so that conflicting header lines exist
             ts = rng.randint(1, 9)
@@ -26,7 +50,64 @@ def cases(rng, tier, shard, nshards):
         yield c
 
 
+def run_unknown_version(case, ctx):
+    """a Gfa whose version is not known yet: failing calls (unsupported VN, malformed deciding
+    lines) interleaved with lines that are queued; each failing call must leave the observation
+    unchanged, and the final Gfa must equal the one built from the accepted lines alone."""
+    import gfapy
+    from ..mon import obs as O
+    from ..mon.client import call
+    g = gfapy.Gfa(vlevel=case["vlevel"])
+    accepted = []
+    nfail = 0
+    for l in case["lines"]:
+        before = O.obs(g)
+        r = call(ctx, "add_line(str)", g.add_line, l)
+        ctx.count("steps")
+        if r.ok:
+            accepted.append(l)
+            continue
+        nfail += 1
+        ctx.count("failing_calls")
+        ctx.add("failure_classes", "unknown-version/%s/%s" % (l.split("\t")[0], r.cls()))
+        after = O.obs(g)
+        if after != before:
+            d = O.diff_obs(before, after)
+            ctx.violation("state-changed-by-failed-call/unknown-version/%s/%s" % (l.split("\t")[0], H._what_changed(d)),
+                          "add_line(%r) raised %s but the Gfa changed:\n  %s\n history %r"
+                          % (l, r.cls(), "\n  ".join(d[:4]), case["lines"]))
+            return
+    if nfail:
+        ctx.nontriv(case["lines"])
+    # carry on: release the queue and compare with a Gfa that never saw the failing calls
+    f1 = call(ctx, "process_line_queue", g.process_line_queue)
+    with hooks.suspended():
+        ref = gfapy.Gfa(vlevel=case["vlevel"])
+        rr = None
+        for l in accepted:
+            rr = call(ctx, "add_line(str)", ref.add_line, l)
+            if not rr.ok:
+                break
+        f2 = call(ctx, "process_line_queue", ref.process_line_queue)
+    if rr is not None and not rr.ok:
+        return          # the accepted lines are not a consistent document on their own (mixed versions)
+    if f1.ok != f2.ok:
+        ctx.violation("carry-on-differs/unknown-version/%s-vs-%s" % (f1.cls(), f2.cls()),
+                      "after failed calls the queue release gives %r, without them %r; history %r"
+                      % (f1, f2, case["lines"]))
+        return
+    if f1.ok and O.obs(g) != O.obs(ref):
+        d = O.diff_obs(O.obs(ref), O.obs(g))
+        ctx.violation("carry-on-differs/unknown-version/%s" % H._what_changed(d),
+                      "Gfa after failed calls differs from the Gfa of the accepted lines:\n  %s\n history %r"
+                      % ("\n  ".join(d[:4]), case["lines"]))
+    ctx.count("carry_on_comparisons")
+    ctx.sample(case)
+
+
 def run(case, ctx):
+    if case.get("k") == "unknown-version":
+        return run_unknown_version(case, ctx)
     shape = H.run_history(case, ctx, compare_every=False)
     fails = [s for s in shape if s.startswith("F:")]
     if fails:
